@@ -1,12 +1,104 @@
-(* Props/C02.v -- property C02 (provisional instance; the general theorems are being added) *)
-From Coq Require Import ZArith NArith List.
-From RP Require Import Base.Bits Model.Codec Model.Showdown Model.Game Spec.SpecGameInv.
+(* Props/C02.v -- chip conservation and zero-sum settlement of the betting engine, for EVERY state
+   reachable from a freshly dealt heads-up hand by any list of accepted actions.
+   C02_step is stated for the strengthened invariant game_inv (Spec/SpecSettle.v): with the plain
+   chips_inv the one-step claim is false (C02_step_plain_false below: a state that still has to
+   post accepts `Blind c` for ANY c, also negative), game_inv additionally records that the
+   blinds are posted. *)
+From Coq Require Import ZArith NArith List Bool.
+From RP Require Import Base.Bits Gen.GenLib Model.Codec Model.Evaluator Model.Showdown Model.Game
+                       Spec.SpecGameInv Spec.SpecSettle
+                       Proofs.C02_Basics Proofs.C02_Inv Proofs.C02_Cards Proofs.C02_Settle.
 Import ListNotations.
 Open Scope Z_scope.
-Definition ex_holes : list N := [mask_of_bits [51; 50]%N; mask_of_bits [41; 40]%N].
-Theorem C02_root_instance :
-  match root Standard ex_holes with
-  | Some g => pot g = 3 /\ map stack (seats g) = [98; 99] /\ map spent (seats g) = [2; 1]
-  | None => False end.
-Proof. vm_compute. repeat split; reflexivity. Qed.
-Print Assumptions C02_root_instance.
+
+(* ---------- the hypotheses are satisfiable ---------- *)
+Definition ex_holes : list N := [3%N; 12%N].                 (* 2c2d / 2h2s *)
+Definition ex_root : game :=
+  mkGame [mkSeat Betting 98 2 2 3%N; mkSeat Betting 99 1 1 12%N] 3 0%N 0 3.
+(* call, check, flop, check-check, turn, check-check, river, check-check: a showdown *)
+Definition ex_history : list action :=
+  [Call 1; Check; Draw 112%N; Check; Check; Draw 128%N; Check; Check; Draw 256%N; Check; Check].
+Definition ex_terminal : game :=
+  mkGame [mkSeat Betting 98 0 2 3%N; mkSeat Betting 98 0 2 12%N] 4 496%N 0 3.
+
+Example ex_wf_holes : wf_holes Standard ex_holes.
+Proof. exists 3%N, 12%N. repeat split; reflexivity. Qed.
+Example ex_root_ok : root Standard ex_holes = Some ex_root.
+Proof. vm_compute. reflexivity. Qed.
+Example ex_reachable : reachable Standard ex_holes ex_terminal.
+Proof. exists ex_root, ex_history. split; vm_compute; reflexivity. Qed.
+Example ex_terminal_stops : must_stop ex_terminal = true.
+Proof. vm_compute. reflexivity. Qed.
+Example ex_terminal_settles : settlements Standard ex_terminal = Some [2; 2].
+Proof. vm_compute. reflexivity. Qed.
+(* a fold: the other seat takes the pot *)
+Example ex_reachable_fold :
+  exists g, run Standard ex_root [Raise 10; Fold] = Some g /\ must_stop g = true
+            /\ settlements Standard g = Some [0; 13].
+Proof. eexists. split; [vm_compute; reflexivity|]. split; vm_compute; reflexivity. Qed.
+Example ex_step : exists g', apply Standard ex_root (Raise 10) = Some g'.
+Proof. eexists. vm_compute. reflexivity. Qed.
+Example ex_rejected : is_allowed Standard ex_root (Raise 1) <> Some true.
+Proof. vm_compute. discriminate. Qed.
+
+
+(* ---------- theorems ---------- *)
+Theorem C02_root : forall d hs, wf_holes d hs -> exists g0, root d hs = Some g0 /\ chips_inv g0.
+Proof. exact chips_root. Qed.
+Print Assumptions C02_root.
+
+Theorem C02_root_inv : forall d hs, wf_holes d hs -> exists g0, root d hs = Some g0 /\ game_inv g0.
+Proof. exact game_inv_root. Qed.
+Print Assumptions C02_root_inv.
+
+Example ex_root_inv : game_inv ex_root.
+Proof.
+  destruct (C02_root_inv Standard ex_holes ex_wf_holes) as (g0 & Hr & Hg).
+  rewrite ex_root_ok in Hr. injection Hr as Hr. subst g0. exact Hg.
+Qed.
+
+Theorem C02_inv_chips : forall g, game_inv g -> chips_inv g.
+Proof. exact game_inv_chips. Qed.
+Print Assumptions C02_inv_chips.
+
+(* the one-step invariant (strengthened: game_inv implies chips_inv by C02_inv_chips) *)
+Theorem C02_step : forall d g a g', game_inv g -> apply d g a = Some g' -> game_inv g'.
+Proof. exact game_inv_step. Qed.
+Print Assumptions C02_step.
+
+(* the literal statement with chips_inv on both sides does not hold in the model *)
+Theorem C02_step_plain_false :
+  ~ (forall d g a g', chips_inv g -> apply d g a = Some g' -> chips_inv g').
+Proof. exact chips_step_plain_false. Qed.
+Print Assumptions C02_step_plain_false.
+
+Theorem C02_reachable : forall d hs g, wf_holes d hs -> reachable d hs g -> chips_inv g.
+Proof. exact chips_reachable. Qed.
+Print Assumptions C02_reachable.
+
+Theorem C02_reachable_inv : forall d hs g, wf_holes d hs -> reachable d hs g -> game_inv g.
+Proof. exact game_inv_reachable. Qed.
+Print Assumptions C02_reachable_inv.
+
+Theorem C02_no_overflow : forall d hs g, wf_holes d hs -> reachable d hs g ->
+  0 <= pot g <= N_PLAYERS * STACK /\ N_PLAYERS * STACK < 2 ^ (CHIPS_BITS - 1).
+Proof. exact no_overflow_reachable. Qed.
+Print Assumptions C02_no_overflow.
+
+Theorem C02_rejected_unchanged : forall d g a, is_allowed d g a <> Some true -> apply d g a = None.
+Proof. exact rejected_unchanged. Qed.
+Print Assumptions C02_rejected_unchanged.
+
+Theorem C02_settle : forall d hs g, wf_holes d hs -> reachable d hs g -> must_stop g = true ->
+  exists rw, settlements d g = Some rw /\ sumZ rw = pot g
+    /\ (forall i s r, nth_error (seats g) i = Some s -> nth_error rw i = Some r -> st s = Folding -> r = 0)
+    /\ winner_takes_or_split d g rw.
+Proof. exact settle_reachable_top. Qed.
+Print Assumptions C02_settle.
+
+(* the blinds are posted exactly once: after the root every `Blind c` is rejected (is_allowed
+   accepts `Blind c` for ANY c while must_post holds, so this is what keeps amounts sane) *)
+Theorem C02_no_post : forall d hs g c, wf_holes d hs -> reachable d hs g ->
+  must_post g = false /\ apply d g (Blind c) = None.
+Proof. exact no_post_reachable. Qed.
+Print Assumptions C02_no_post.
